@@ -13,7 +13,7 @@ RULE = ("import graphs as real files in a scratch directory: every graph over 3 
         "source order. Also compared with the Lean model. Non-trivial: the graph has a diamond, a repeated import or a cycle.")
 ASSUMPTIONS = ["module paths are clean relative paths; the harness uses an absolute root directory"]
 default_compare = lambda m, i: C.compare_run(m, i)
-PATHS = ["main.pakhi", "b.pakhi", "sub/c.pakhi", "sub/deep/d.pakhi", "e.pakhi", "sub/f.pakhi", "g.pakhi", "sub/deep/h.pakhi"]
+PATHS = ["main.pakhi", "b.pakhi", "sub/c.pakhi", "sub/deep/d.pakhi", "e.pakhi", "sub/f.pakhi", "g.pakhi", "sub/deep/h.pakhi", "i.pakhi", "sub/j.pakhi"]
 
 
 def has_cycle_from(adj, root):
@@ -132,6 +132,41 @@ def cases(rng, tier, stats):
             if a != b or r.chance(0.3):
                 edges.add((a, b))
         out.append(graph_case("graphs-random", k, sorted(edges), r.chance(0.5))); n += 1
+    # shared libraries: a module with a large subtree (star, chain, tree; 4..7 loads) imported first, then a sibling
+    # that reaches the same module again through 1..2 hops (diamonds over big subtrees are acyclic and must load),
+    # and the same shapes closed into a real cycle
+    nlib = 0
+    for shape in range(4):
+        for size in (3, 4, 5, 6):
+            for hops in (1, 2):
+                for closed in (False, True):
+                    for desc in (False, True):
+                        lib = 1
+                        members = list(range(2, 2 + size))
+                        edges = set()
+                        if shape == 0:      # star
+                            edges |= {(lib, m) for m in members}
+                        elif shape == 1:    # chain
+                            chain = [lib] + members
+                            edges |= {(chain[i], chain[i + 1]) for i in range(len(chain) - 1)}
+                        elif shape == 2:    # binary tree
+                            nodes = [lib] + members
+                            for i in range(1, len(nodes)):
+                                edges.add((nodes[(i - 1) // 2], nodes[i]))
+                        else:               # star whose leaves share one more leaf
+                            edges |= {(lib, m) for m in members[:-1]} | {(m, members[-1]) for m in members[:-1]}
+                        app = 2 + size
+                        if app + hops > len(PATHS) - 1:
+                            continue
+                        edges |= {(0, lib), (0, app)}
+                        last = app
+                        for h in range(1, hops):
+                            edges.add((last, app + h)); last = app + h
+                        edges.add((last, lib))
+                        if closed:
+                            edges.add((members[-1], app))       # the library's last member imports the application: a cycle
+                        out.append(graph_case("graphs-shared-library", last + 1, sorted(edges), desc)); n += 1; nlib += 1
+    stats["shared_library_graphs"] = nlib
     stats["graphs"] = n
     # error values
     specials = [('মডিউল ম = "nothere.pakhi";\nদেখাও "x";\n', []), ('মডিউল ম = "b.txt";\nদেখাও "x";\n', [("b.txt", 'দেখাও "b";')]),
